@@ -31,7 +31,7 @@ def meta(tier):
         'extra': {'exhaustive_part': 'every cut point L of each program with N <= 80'},
         'assumptions': ['callbacks invoked through data functions with a variables object do not write globals and do not read the '
                         'variables keys (the copy of globals made there is outside the property)',
-                        'includes only at top level of a file; recursion depth bounded by L <= 150 for non-terminating programs'],
+                        'includes at top level of a file, or inside a function of the root file (the failing-include family); recursion depth bounded by L <= 150 for non-terminating programs'],
     }
 
 
@@ -72,7 +72,7 @@ def small_prog(rnd, depth=2):
 
 def make_case(rnd):
     """Returns (main_text, files, family, base)."""
-    fam = rnd.choice(['structured', 'nonterm', 'callbacks', 'includes', 'mix', 'callbacks', 'includes'])
+    fam = rnd.choice(['structured', 'nonterm', 'callbacks', 'includes', 'mix', 'callbacks', 'includes', 'failing-include-in-function'])
     files = {}
     lines = []
     base = rnd.choice(['https://host.example/a/b/main.bare', '/home/u/proj/main.bare', 'proj/main.bare'])
@@ -100,6 +100,18 @@ def make_case(rnd):
             files[norm_url(base[:base.rfind('/') + 1] + 'inc/' + name)] = text
             lines.insert(rnd.randint(0, len(lines)), f"include 'inc/{name}'")
         lines.append("systemLog('after includes')")
+    if fam == 'failing-include-in-function':
+        # an include executed INSIDE a script function runs some statements and then fails (its own include names a file with a
+        # syntax error, or a missing file): the call evaluates to null and the run goes on - the statements that did start count
+        body, _ = small_prog(rnd, 1)
+        broken = rnd.choice(["zz = (1 +", "if zz:\n    zz = 1", "function ():", None])
+        if broken is not None:
+            files[norm_url(base[:base.rfind('/') + 1] + 'inc/sub/bad.bare')] = broken
+        files[norm_url(base[:base.rfind('/') + 1] + 'inc/part.bare')] = "iq = 0\nwhile iq < 4:\n    iq = iq + 1\nendwhile\n" + body + "\ninclude 'sub/bad.bare'\nsystemLog('unreachable')"
+        lines.append("function ld(k):\n    include 'inc/part.bare'\n    return k\nendfunction")
+        lines.append(f"nq = 0\nwhile nq < {rnd.randint(1, 4)}:\n    nq = nq + 1\n    systemLog('ld ' + ld(nq))\nendwhile")
+        if rnd.random() < 0.5:
+            lines.append("arrq = arrayNew(3, 1, 2)\nfunction cmpq(a, b):\n    ld(0)\n    return a - b\nendfunction\narraySort(arrq, cmpq)")
     if fam == 'nonterm':
         if rnd.random() < 0.5:
             t, _ = small_prog(rnd, 1)
